@@ -80,8 +80,7 @@ def _polyhist(css):
             v = Fr(0)
             for c in reversed(cs):
                 v = Fr(c) + t * v
-            assert Fr(float(v)) == v, "history value not representable"
-            out.append(float(v))
+            out.append(float(v))     # exact for the dyadic times the model predicts; a wrong time shows up as a value mismatch
         return np.array(out, dtype=np.float64)
     return hist
 
